@@ -4,6 +4,11 @@
 //! Inputs (replayable): `run <op>;<op>;…` (a whole history on an empty map, see Driver/Map.lean) and
 //! `enum <base> <depth> <qdepth> <prefix>` (all histories of length ≤ depth over the 58-op alphabet of the
 //! 6-address window at `base` that start with `prefix`).
+//!
+//! The Lean side has TWO forms of `put` / `remove_range`: the recursive one (`put:` / `rr:` / `map enum`) and the
+//! operational, statement-by-statement one with explicit panic sites (`xput:` / `xrr:` / `map enumx`,
+//! Model/MapOps.lean). Every exhaustive subtree digest of the real code is compared with BOTH model digests and
+//! every random history is sent in both spellings; on the real map `xput` = `put`, `xrr` = `rr`.
 use std::collections::BTreeMap;
 use std::sync::atomic::{AtomicUsize, Ordering};
 use std::sync::Mutex;
@@ -78,7 +83,7 @@ fn real_op(map: &mut MemoryMap, sh: &mut Shadow, op: &str) -> Result<(String, Op
 	let num = |s: &str| s.parse::<u32>().map_err(|_| format!("bad number {s}"));
 	match w.as_slice()
 	{
-		["put", a, d] =>
+		["put" | "xput", a, d] =>
 		{
 			let (a, d) = (num(a)?, unhex(d).ok_or("bad hex")?);
 			let before = dump(map);
@@ -137,7 +142,7 @@ fn real_op(map: &mut MemoryMap, sh: &mut Shadow, op: &str) -> Result<(String, Op
 			if let Some(w) = want {for k in 0..w.1.len() {sh.remove(&(w.0 + k as u32));}}
 			Ok((text, bad))
 		},
-		["rr", lo, hi] =>
+		["rr" | "xrr", lo, hi] =>
 		{
 			let (lo, hi) = (num(lo)?, num(hi)?);
 			let r = guarded(|| map.remove_range(MemoryRange::new(lo, hi)));
@@ -302,7 +307,8 @@ fn check_run(cx: &mut Cx, ops: &str, reply: &str)
 		// name the first differing op
 		let (m, r): (Vec<&str>, Vec<&str>) = (reply.split(" | ").collect(), imp.split(" | ").collect());
 		let k = (0..m.len().max(r.len())).find(|&k| m.get(k) != r.get(k)).unwrap_or(0);
-		cx.report.disagree("model.map.run", input.clone(), format!("op {k}: {}", m.get(k).unwrap_or(&"<missing>")), format!("op {k}: {}", r.get(k).unwrap_or(&"<missing>")));
+		let comp = if ops.split(';').any(|o| o.starts_with("xput:") || o.starts_with("xrr:")) {"model.map.run_ops"} else {"model.map.run"};
+		cx.report.disagree(comp, input.clone(), format!("op {k}: {}", m.get(k).unwrap_or(&"<missing>")), format!("op {k}: {}", r.get(k).unwrap_or(&"<missing>")));
 	}
 	if let Some(o) = oracle {cx.report.oracle_fail(input, o);}
 }
@@ -380,12 +386,19 @@ fn pairs6() -> Vec<(u32, u32)>
 fn data_at(t: usize, n: usize) -> Vec<u8> {(0..n).map(|j| ((16 * (t + 1) + j) % 256) as u8).collect()}
 
 /// text form of alphabet entry `i` at history position `t`
-fn op_text(base: u32, t: usize, i: usize) -> String
+fn op_text(x: bool, base: u32, t: usize, i: usize) -> String
 {
-	if i < 30 {format!("put:{}:{}", base + (i / 5) as u32, hex(&data_at(t, i % 5)))}
+	let pfx = if x {"x"} else {""};
+	if i < 30 {format!("{pfx}put:{}:{}", base + (i / 5) as u32, hex(&data_at(t, i % 5)))}
 	else if i < 36 {format!("rm:{}", base + (i - 30) as u32)}
-	else if i < 57 {let p = pairs6()[i - 36]; format!("rr:{}:{}", base + p.0, base + p.1)}
+	else if i < 57 {let p = pairs6()[i - 36]; format!("{pfx}rr:{}:{}", base + p.0, base + p.1)}
 	else {"clr".to_owned()}
+}
+
+/// the same history with every put / remove_range routed to the operational model
+fn to_ops_form(h: &str) -> String
+{
+	h.split(';').map(|o| if o.starts_with("put:") || o.starts_with("rr:") {format!("x{o}")} else {o.to_owned()}).collect::<Vec<_>>().join(";")
 }
 
 fn probes(base: u32) -> Vec<u32>
@@ -659,25 +672,26 @@ fn pre_text(pre: &[usize]) -> String
 }
 
 /// the history along a path as text ops, with every query after every op of depth ≤ qd
-fn path_ops(base: u32, qd: usize, path: &[usize]) -> String
+fn path_ops(x: bool, base: u32, qd: usize, path: &[usize]) -> String
 {
 	let mut v = Vec::new();
 	for (t, &i) in path.iter().enumerate()
 	{
-		v.push(op_text(base, t, i));
+		v.push(op_text(x, base, t, i));
 		if t + 1 <= qd {v.extend(query_ops(base));}
 	}
 	v.join(";")
 }
 
 /// digest mismatch below `pre`: walk down to the first differing node and report it as a text history
-fn bisect(cx: &mut Cx, base: u32, depth: usize, qd: usize, pre: Vec<usize>)
+fn bisect(cx: &mut Cx, x: bool, base: u32, depth: usize, qd: usize, pre: Vec<usize>)
 {
 	let mut pre = pre;
+	let req = if x {"enumx"} else {"enum"};
 	loop
 	{
 		// does the path itself differ?
-		let ops = path_ops(base, qd, &pre);
+		let ops = path_ops(x, base, qd, &pre);
 		let reply = cx.model.ask(&format!("map run {ops}"));
 		let before = cx.report.disagreements_total;
 		check_run(cx, &ops, &reply);
@@ -687,7 +701,7 @@ fn bisect(cx: &mut Cx, base: u32, depth: usize, qd: usize, pre: Vec<usize>)
 		{
 			let mut p = pre.clone();
 			p.push(i);
-			let m = cx.model.ask(&format!("map enum {base} {depth} {qd} {}", pre_text(&p)));
+			let m = cx.model.ask(&format!("map {req} {base} {depth} {qd} {}", pre_text(&p)));
 			let r = real_enum(base, depth, qd, &p);
 			if m != format!("{:016x}", r.digest) {next = Some(p); break;}
 		}
@@ -695,11 +709,12 @@ fn bisect(cx: &mut Cx, base: u32, depth: usize, qd: usize, pre: Vec<usize>)
 	}
 	if cx.report.disagreements_total == 0
 	{
-		cx.report.disagree("model.map.enum", format!("enum {base} {depth} {qd} {}", pre_text(&pre)), "digest differs", "no differing text history found");
+		cx.report.disagree(if x {"model.map.enum_ops"} else {"model.map.enum"}, format!("{req} {base} {depth} {qd} {}", pre_text(&pre)), "digest differs", "no differing text history found");
 	}
 }
 
-fn check_enum(cx: &mut Cx, base: u32, depth: usize, qd: usize, pre: &[usize], model_digest: &str, out: EnumOut)
+/// `model_digest`: recursive form (`map enum`), `ops_digest`: operational form (`map enumx`)
+fn check_enum(cx: &mut Cx, base: u32, depth: usize, qd: usize, pre: &[usize], model_digest: &str, ops_digest: &str, out: EnumOut)
 {
 	let input = format!("enum {base} {depth} {qd} {}", pre_text(pre));
 	cx.report.cases(out.nodes + out.queries);
@@ -712,16 +727,26 @@ fn check_enum(cx: &mut Cx, base: u32, depth: usize, qd: usize, pre: &[usize], mo
 	cx.report.hit_n("enumerated queries", out.queries);
 	if let Some((path, msg)) = out.failure
 	{
-		let ops = path_ops(base, qd, &path);
+		let ops = path_ops(false, base, qd, &path);
 		cx.report.oracle_fail(format!("run {ops}"), format!("window {base:08x}, history {path:?}: {msg}"));
 	}
 	if model_digest != format!("{:016x}", out.digest)
 	{
 		let before = cx.report.disagreements_total;
-		bisect(cx, base, depth, qd, pre.to_vec());
+		bisect(cx, false, base, depth, qd, pre.to_vec());
 		if cx.report.disagreements_total == before
 		{
-			cx.report.disagree("model.map.enum", input, model_digest, format!("{:016x}", out.digest));
+			cx.report.disagree("model.map.enum", input.clone(), model_digest, format!("{:016x}", out.digest));
+		}
+	}
+	cx.report.hit_n("subtree digests compared with the operational model (putOps / removeRangeOps)", 1);
+	if ops_digest != format!("{:016x}", out.digest)
+	{
+		let before = cx.report.disagreements_total;
+		bisect(cx, true, base, depth, qd, pre.to_vec());
+		if cx.report.disagreements_total == before
+		{
+			cx.report.disagree("model.map.enum_ops", format!("enumx {base} {depth} {qd} {}", pre_text(pre)), ops_digest, format!("{:016x}", out.digest));
 		}
 	}
 }
@@ -731,7 +756,7 @@ fn exhaustive(cx: &mut Cx, depth: usize, qd: usize)
 	let bases = [0u32, 0xFFFF_FFFA];
 	let tasks: Vec<(u32, usize)> = bases.iter().flat_map(|&b| (0..58).map(move |i| (b, i))).collect();
 	let next = AtomicUsize::new(0);
-	let results: Mutex<Vec<(u32, usize, String, EnumOut)>> = Mutex::new(Vec::new());
+	let results: Mutex<Vec<(u32, usize, String, String, EnumOut)>> = Mutex::new(Vec::new());
 	let workers = if depth >= 5 {4} else {2};
 	std::thread::scope(|s|
 	{
@@ -746,16 +771,17 @@ fn exhaustive(cx: &mut Cx, depth: usize, qd: usize)
 					if k >= tasks.len() {break;}
 					let (base, i) = tasks[k];
 					let m = model.ask(&format!("map enum {base} {depth} {qd} {i}"));
+					let mx = model.ask(&format!("map enumx {base} {depth} {qd} {i}"));
 					let out = real_enum(base, depth, qd, &[i]);
-					results.lock().unwrap().push((base, i, m, out));
+					results.lock().unwrap().push((base, i, m, mx, out));
 				}
 			});
 		}
 	});
 	let mut results = results.into_inner().unwrap();
 	results.sort_by_key(|r| (r.0, r.1));
-	cx.model.requests += results.len() as u64;
-	for (base, i, m, out) in results {check_enum(cx, base, depth, qd, &[i], &m, out);}
+	cx.model.requests += 2 * results.len() as u64;
+	for (base, i, m, mx, out) in results {check_enum(cx, base, depth, qd, &[i], &m, &mx, out);}
 }
 
 pub fn run(_id: &str, cx: &mut Cx)
@@ -764,6 +790,7 @@ pub fn run(_id: &str, cx: &mut Cx)
 (6 put addresses x data lengths 0-4, 6 remove addresses, 21 ranges, clear) of the 6-address windows at 0 and at 2^32-6; after every op return value + \
 full iter() dump hashed and compared with the model, state oracle against a BTreeMap shadow; at nodes of depth <= qdepth every find(Exact/Below/Above), \
 get(Exact), count, count_range, iter_range over the probe set {0, window-1 .. window+6, 0xFFFFFFFF}. random: 200-op text histories at both ends and random places. \
+every subtree digest and every random history is compared with BOTH Lean forms of put / remove_range: the recursive one and the operational statement-by-statement one (putOps / removeRangeOps, explicit panic sites). \
 evaluations = ops + queries executed on the real map; non-trivial = every history (return values and dump after every op); distinct = distinct per-subtree digests / distinct history transcripts".to_owned();
 
 	if let Some(input) = cx.replay.clone()
@@ -783,8 +810,21 @@ evaluations = ops + queries executed on the real map; non-trivial = every histor
 				let (base, depth, qd) = (f[0].parse::<u32>().unwrap(), f[1].parse::<usize>().unwrap(), f[2].parse::<usize>().unwrap());
 				let pre: Vec<usize> = if f[3] == "-" {Vec::new()} else {f[3].split(',').map(|s| s.parse().unwrap()).collect()};
 				let m = cx.model.ask(&format!("map enum {base} {depth} {qd} {}", f[3]));
+				let mx = cx.model.ask(&format!("map enumx {base} {depth} {qd} {}", f[3]));
 				let out = real_enum(base, depth, qd, &pre);
-				check_enum(cx, base, depth, qd, &pre, &m, out);
+				check_enum(cx, base, depth, qd, &pre, &m, &mx, out);
+			},
+			["enumx", rest] =>
+			{
+				// replay of an operational-model digest mismatch: same enumeration, both digests are compared again
+				let f: Vec<&str> = rest.split(' ').collect();
+				if f.len() != 4 {cx.report.oracle_fail(input.clone(), "unrecognised replay input"); return;}
+				let (base, depth, qd) = (f[0].parse::<u32>().unwrap(), f[1].parse::<usize>().unwrap(), f[2].parse::<usize>().unwrap());
+				let pre: Vec<usize> = if f[3] == "-" {Vec::new()} else {f[3].split(',').map(|s| s.parse().unwrap()).collect()};
+				let m = cx.model.ask(&format!("map enum {base} {depth} {qd} {}", f[3]));
+				let mx = cx.model.ask(&format!("map enumx {base} {depth} {qd} {}", f[3]));
+				let out = real_enum(base, depth, qd, &pre);
+				check_enum(cx, base, depth, qd, &pre, &m, &mx, out);
 			},
 			_ => cx.report.oracle_fail(input.clone(), "unrecognised replay input"),
 		}
@@ -800,6 +840,7 @@ evaluations = ops + queries executed on the real map; non-trivial = every histor
 		"put:5:01;put:7:02;put:9:03;put:6:aabbcc;find:4:a;find:4:b;find:10:a;find:10:b;ir:6:8;cr:0:6",
 		"rr:5:3;cr:5:3;ir:5:3",
 	];
+	let fixed: Vec<String> = fixed.iter().map(|f| f.to_string()).chain(fixed.iter().map(|f| to_ops_form(f))).collect();
 	let lines: Vec<String> = fixed.iter().map(|f| format!("map run {f}")).collect();
 	let replies = cx.model.ask_many(&lines);
 	for (f, r) in fixed.iter().zip(replies.iter()) {check_run(cx, f, r);}
@@ -815,6 +856,9 @@ evaluations = ops + queries executed on the real map; non-trivial = every histor
 	let nhist = if cx.thorough() {4000} else {400};
 	let hs: Vec<String> = (0..nhist).map(|_| {let mut r = cx.rng.fork(); gen_history(&mut r, 200)}).collect();
 	cx.report.hit_n("random 200-op histories", nhist);
+	// every history a second time with put / remove_range routed to the operational model (xput / xrr)
+	let hs: Vec<String> = hs.iter().flat_map(|h| [h.clone(), to_ops_form(h)]).collect();
+	cx.report.hit_n("random 200-op histories replayed through the operational model", nhist);
 	for chunk in hs.chunks(256)
 	{
 		let lines: Vec<String> = chunk.iter().map(|h| format!("map run {h}")).collect();
